@@ -329,7 +329,12 @@ pub async fn setup_http_api_handler(
 
 async fn require_authz(
     Extension(agent): Extension<Agent>,
-    maybe_authz_header: Option<TypedHeader<Authorization<Bearer>>>,
+    // a header that is not a bearer token is the same as no token: it must not
+    // turn requests away when no token is configured
+    maybe_authz_header: Result<
+        TypedHeader<Authorization<Bearer>>,
+        axum_extra::typed_header::TypedHeaderRejection,
+    >,
     request: Request,
     next: axum::middleware::Next,
 ) -> Result<axum::response::Response, axum::http::StatusCode> {
